@@ -263,6 +263,14 @@ where
         if items != want {
             ctx.violation(format!("{}|iteration-differs-from-load", name), || case(""), || format!("iterator yields {} items {:x?}, expected {} items {:x?}", items.len(), &items[..items.len().min(12)], want.len(), &want[..want.len().min(12)]));
         }
+        // the same sequence through count / last / fold / for_each / nth / skip, from partly consumed states
+        if items == want {
+            let reference: Vec<R> = want.iter().map(|v| R::from_u32(*v)).collect();
+            let n = reference.len();
+            if let Some(d) = egmon::target::consumer_disagreement(&|| RawDataSlice::<R, O>::new(&data).into_iter(), &reference, &[0, 1, n / 2, n.saturating_sub(1), n, n + 1]) {
+                ctx.violation(format!("{}|iterator-consumed-differently", name), || case(""), || d.clone());
+            }
+        }
         for (i, w) in want.iter().enumerate() {
             let l: Option<u32> = R::load::<O>(&data, i).map(|r| r.into_inner().into());
             if l != Some(*w) {
